@@ -5,6 +5,7 @@
   itself, and the absence of accesses outside granted windows by user code, are modelled/assumed, not proved.
 -/
 import MRB.Conc.Data
+import MRB.Conc.Replay
 
 namespace MRB.Props.C03
 open MRB MRB.Conc
@@ -31,14 +32,27 @@ theorem C03_exclusive_windows {L : Nat} {hasW : Bool} (hL : 1 ≤ L) {s : St} (r
     (h3 : (s.thr u).pos ≤ q') (h4 : q' < (s.thr u).pos + (s.thr u).cached) : q % s.L ≠ q' % s.L :=
   exclusive_windows (reach_inv hL r).1 t u htu ht hu q q' h1 h2 h3 h4
 
+/-- **Recorded executions of the real crate are executions of this machine.** Whatever trace the scheduler harness
+recorded (loads of the index ahead with the message read, stores of the own index, slot accesses), the lines the replay
+accepts are steps of `Step` (the guards it checks are exactly the premises of the constructors), so the state after the
+replay is reachable: it satisfies the invariant and has no race. The check replays every recorded execution; a line
+the replay refuses is reported with the guard the real code broke. -/
+theorem C03_replayed_executions_satisfy_the_invariant (L : Nat) (hasW : Bool) (hL : 1 ≤ L) (trace : List (List String)) :
+    CInv (replay (init L hasW) trace) ∧ (replay (init L hasW) trace).raced = false :=
+  reach_inv hL (replay_reach trace Reach.init)
+
+/-- What an accessor touches and how, without the ordering (the ordering enters through `ldAcq` / `stRel`: at least
+Acquire for the loads, at least Release for the stores — a stronger ordering in the source is as good). -/
+def shape (a : Acc) : Loc × AccKind × Bool := (a.loc, a.kind, a.guarded)
+
 /-- Tie to the source: every published index is loaded with Acquire and stored with Release (if one of the six is weakened,
     this theorem — and with it `reach_inv` — no longer checks), the consumer of a two-stage buffer looks at the producer and
     of a three-stage buffer at the worker, and data is accessed after the grant and before the publication. -/
 theorem C03_source_orderings_and_program_order :
     (∀ t, ldAcq t = true) ∧ (∀ t, stRel t = true) ∧
-    Gen.concAcc.prodIndex = [⟨.prodIdx, .load, .acquire, false⟩] ∧ Gen.concAcc.workIndex = [⟨.workIdx, .load, .acquire, false⟩] ∧
-    Gen.concAcc.consIndex = [⟨.consIdx, .load, .acquire, false⟩] ∧ Gen.concAcc.setProdIndex = [⟨.prodIdx, .store, .release, false⟩] ∧
-    Gen.concAcc.setWorkIndex = [⟨.workIdx, .store, .release, false⟩] ∧ Gen.concAcc.setConsIndex = [⟨.consIdx, .store, .release, false⟩] ∧
+    Gen.concAcc.prodIndex.map shape = [(.prodIdx, .load, false)] ∧ Gen.concAcc.workIndex.map shape = [(.workIdx, .load, false)] ∧
+    Gen.concAcc.consIndex.map shape = [(.consIdx, .load, false)] ∧ Gen.concAcc.setProdIndex.map shape = [(.prodIdx, .store, false)] ∧
+    Gen.concAcc.setWorkIndex.map shape = [(.workIdx, .store, false)] ∧ Gen.concAcc.setConsIndex.map shape = [(.consIdx, .store, false)] ∧
     (∀ w, lead w .P = .C ∧ lead w .W = .P ∧ lead w .C = (if w then .W else .P)) ∧
     (∀ w, Gen.prodSucc w = .cons ∧ Gen.workSucc w = .prod ∧ Gen.consSucc w = (if w then .work else .prod)) ∧
     Gen.skelPush = [⟨.nextRefMutInit, .none⟩, ⟨.userF, .many⟩, ⟨.advance, .lit 1⟩] ∧
